@@ -61,7 +61,7 @@ def soseos_vc(R, two_d, tokens_only, sos_set, eos_set, npre, npost):
 
         saved = {}
         I.stubs["torch.serialization.load"] = I.stubs["torch.load"] = lambda I2, pth, *a, **k: stored()
-        I.stubs["torch.serialization.save"] = I.stubs["torch.save"] = lambda I2, obj, pth, *a, **k: saved.__setitem__("hyp", obj)
+        I.stubs["torch.serialization.save"] = I.stubs["torch.save"] = lambda I2, obj, f=None, *a, **k: saved.__setitem__("hyp", obj)
         I.ex.ghost["saved"] = saved
         read = I.call(D._load_ref, ["ref/u.pt", tokens_only, sos, eos], {})
         I.ex.ghost["read"] = read
@@ -338,7 +338,7 @@ def validate_vcs(ctx=None):
                     raise Unsupported("torch.load(%r)" % (pth,))
                 return TDesc(pth[-2], I2.ex.ghost["k"])
 
-            def save(I2, obj, pth, *a, **k):
+            def save(I2, obj, f=None, *a, **k):
                 I2.ex.ghost["wrote"] = True
 
             I.stubs["torch.serialization.load"] = I.stubs["torch.load"] = load
